@@ -94,7 +94,8 @@ Proof. exact lower_times. Qed.
    For every body of statements covered by [wf_stmt] (assignments with any compound operator over jump-free
    right-hand sides, ternary assignments, single-variable declarations with a jump-free or ternary initialiser,
    scope ends, empty statements, conditional / counting / unconditional jumps, labels, interrupts, instruction
-   calls whose arguments need no temporaries; statements disabled on the VM's difficulty are waited for and skipped),
+   calls with jump-free arguments (complex arguments go through temporaries that are live across the call and freed after it);
+   statements disabled on the VM's difficulty are waited for and skipped),
    every table of intrinsics, every initial state and any number of loop iterations [fs]:
    if the source run, in strict mode, ends in a state, the lowered stream ends in EXACTLY that state -- same
    registers and locals, same time and real time, same instruction log with the same real times.
@@ -112,7 +113,7 @@ Theorem C02_body_correct :
   forall libm avail auto_casts rty lty diff dsel n0 fuel body code s',
   (forall op t, sigil_of_unop op <> None -> avail (KUnOp op t) = false) ->
   lower_body avail auto_casts rty lty fuel body (mklst n0 []) = Ok (code, s') ->
-  wf_body auto_casts rty lty n0 body ->
+  wf_body rty lty n0 body ->
   forall fs st st', fresh lty (p_mem st) n0 ->
   sprog gen_optable libm rty lty diff dsel true fs body Exec st = Ok st' ->
   wprog gen_optable libm lty dsel fs code Exec st None = Ok st'.
@@ -120,20 +121,20 @@ Proof. exact body_correct_gen. Qed.
 
 (* non-vacuity of Stage C: a loop through a backward counting jump (3 iterations), a compound assignment
    through a temporary, a ternary, `unless (a || b) goto L @ t`, a declaration with a ternary initialiser, a call
-   disabled on the VM's difficulty, a scope end, calls: the premises hold, the strict source
+   disabled on the VM's difficulty, a scope end, calls with two complex arguments: the premises hold, the strict source
    run ends (time 40, real time 60, 5 logged calls) and so does the lowered stream, in the same state *)
 Example C02_body_example :
   let rty := fun _ : Z => TInt in let lty := fun _ : nat => TInt in let libm := fun (_ : unop) (_ : Z) => 0 in
   exists code s' st',
-    lower_body ex_avail true rty lty 20 ex_body (mklst 1 []) = Ok (code, s') /\ length code = 34%nat /\
-    wf_body true rty lty 1 ex_body /\ fresh lty (p_mem ex_st0) 1 /\
+    lower_body ex_avail true rty lty 20 ex_body (mklst 1 []) = Ok (code, s') /\ length code = 41%nat /\
+    wf_body rty lty 1 ex_body /\ fresh lty (p_mem ex_st0) 1 /\
     sprog gen_optable libm rty lty 0 (Some 0%nat) true 10 ex_body Exec ex_st0 = Ok st' /\
     p_time st' = 40 /\ p_real st' = 60 /\ length (p_log st') = 5%nat /\ regs (p_mem st') 1011 = VInt 27 /\
     wprog gen_optable libm lty (Some 0%nat) 10 code Exec ex_st0 None = Ok st'.
 Proof. exact body_example. Qed.
 
-(* The full property, for reference.  Not yet a theorem: multi-variable declarations, instruction
-   calls with complex arguments, difficulty switches inside expressions, ternaries nested inside
+(* The full property, for reference.  Not yet a theorem: multi-variable declarations, ternaries as call
+   arguments, difficulty switches inside expressions, ternaries nested inside
    arithmetic, and the composition with register allocation
    (Proofs/RegAllocSem.v, regalloc_simulates).  Those parts are covered by the structural correspondence (model lowering =
    implementation lowering) and by the AstVm before/after oracle on every run. *)
